@@ -521,7 +521,8 @@ func (en *DefaultEngine) Exec(ctx context.Context, input []byte) (bool, error) {
 	}
 
 	if en.cfg.ResetOnEmptyInput {
-		if len(input) == 0 {
+		// (a blocked session stays blocked: only code outside the vm lifts a block)
+		if len(input) == 0 && !en.st.MatchFlag(state.FLAG_TERMINATE, true) {
 			v, err := en.Reset(ctx, true)
 			if err != nil {
 				return v, err
